@@ -202,6 +202,19 @@ def minify(
     return minified
 
 
+def _source_encoding(source):
+    """
+    The encoding declared by a PEP 263 coding cookie in the first two lines of source bytes
+    """
+
+    for line in re.split(br'\r\n|\r|\n', source, maxsplit=2)[:2]:
+        cookie = re.match(br'^[ \t\f]*#.*?coding[:=][ \t]*([-_.a-zA-Z0-9]+)', line)
+        if cookie:
+            return cookie.group(1).decode('ascii')
+
+    return 'utf-8'
+
+
 def _find_shebang(source):
     """
     Find a shebang line in source
@@ -210,7 +223,7 @@ def _find_shebang(source):
     if isinstance(source, bytes):
         shebang = re.match(br'^#![^\r\n]*', source)
         if shebang:
-            return shebang.group().decode()
+            return shebang.group().decode(_source_encoding(source))
     else:
         shebang = re.match(r'^#![^\r\n]*', source)
         if shebang:
